@@ -345,6 +345,23 @@ def collect_avgs(t, acc):
             collect_avgs(x, acc)
 
 
+def check_level(node, name, term, level):
+    """every atom / generated function mentioned by `term` outside average_over_modes(...) must be available at
+    `level` (the arguments of average_over_modes become separate per-mode functions)"""
+    def walk(t):
+        if t[0] == "avg":
+            return
+        lv = ATOM_LEVEL.get(t[1]) if t[0] == "atom" else t[2] if t[0] == "call" else None
+        if t[0] == "guard" and not level_le("TV", level):
+            bail(node, "%s: T = 0 guard in a per-%s quantity" % (name, level))
+        if lv is not None and not level_le(lv, level):
+            bail(node, "%s: a per-%s quantity (%s) is used in a per-%s context" % (name, lv, t[1], level))
+        for x in t[1:]:
+            if isinstance(x, tuple):
+                walk(x)
+    walk(term)
+
+
 def contains(t, kinds):
     if t[0] in kinds:
         return True
@@ -677,8 +694,8 @@ class Translator:
             if isinstance(res, TranslateError):
                 bail(e, "depends on %s.%s which could not be translated [%s]" % (cls, name, res))
             spec = POINTWISE[name]
-            if not level_le(spec["level"], st["level"]):
-                bail(e, "a per-%s quantity is used in a per-%s context" % (spec["level"], st["level"]))
+            # (a local may hold a per-mode array that is only used inside average_over_modes later: the level of
+            #  every emitted function is checked on its final term, see check_level)
 
             def mk(names, shape):
                 if isinstance(names, tuple):
@@ -926,6 +943,7 @@ class Translator:
                     bail(fn, "%s%s has axes %s, expected %s" % (name, path, fmt_sig(v.sig), fmt_sig(shape)))
                 if contains(v.term, ("avg", "guard", "opaque")):
                     bail(fn, "%s%s: mode average / guard in a per-mode quantity" % (name, path))
+                check_level(fn, name + path, v.term, spec["level"])
                 defs.append(("%s_%s" % (PREFIX[cls], names), spec["level"], [], v.term))
             walk(v, spec["names"], spec["shape"], "")
             res = dict(defs=defs, owner=owner, line=fn.lineno)
@@ -954,6 +972,7 @@ class Translator:
             if len(avgs) != spec["navg"]:
                 bail(fn, "%s: the tie expects %d distinct mode average(s), the code has %d"
                      % (name, spec["navg"], len(avgs)))
+            check_level(fn, name, v.term, spec["level"])
             p = "%s_%s" % (PREFIX[cls], spec["name"])
             defs = []
             avg_names = {}
